@@ -7,11 +7,11 @@ import time
 
 from common import run, sha, cache_get, cache_put, scratch, MAX_WORKERS, MEM_LIMIT_KB, write
 
-KANI_VERSION = "kani-0.68.0/cbmc-6.11.0"
+KANI_VERSION = "kani-0.68.0/cbmc-6.11.0/runner-2"
 BASE_ARGS = ["cargo", "kani", "-Z", "function-contracts", "-Z", "stubbing"]
 
 CHECK_RE = re.compile(
-    r"Check \d+: (?P<id>\S+)\s*\n\s*- Status: (?P<status>\w+)\s*\n\s*- Description: \"(?P<desc>(?:[^\"\\]|\\.)*)\"(?:\s*\n\s*- Location: (?P<loc>[^\n]*))?")
+    r"Check \d+: (?P<id>\S+)\s*\n\s*- Status: (?P<status>\w+)\s*\n\s*- Description: \"+(?P<desc>[^\n]*?)\"+[ \t]*(?:\n\s*- Location: (?P<loc>[^\n]*))?")
 
 
 def crate_dir(snap, crate):
@@ -38,7 +38,7 @@ def classify(h, res):
              n_checks=len(checks), status=None, reason=None, failed=[], covers={}, obl={}, fresh=True, stubs=stubs)
     for c in checks:
         d = c["desc"]
-        if c["status"] in ("SATISFIED", "UNSATISFIABLE", "UNREACHABLE") and d.startswith("COV:") or "cover" in c["id"] and d.startswith("COV:"):
+        if d.startswith("COV:"):
             v["covers"][d] = c["status"]
     if res["killed"]:
         v["status"], v["reason"] = "undecided", res["killed"]
